@@ -133,11 +133,11 @@ def toggle_closure(ctx):
     ctx.add("states", r.states)
     ctx.add("transitions", r.transitions)
     ctx.add("paths", r.paths)
-    ctx.floor("Toggle typestates", r.states, 4)
     if not r.violations:
         ctx.ok("C19.M1", f"Toggle edge monitor held on all {r.transitions} transitions of {r.states} typestates")
     for v in r.violations:
         ctx.fail("C19.M1", f"{v.message} [client sequence: {' ; '.join(v.client_seq)}]", site=v.site, key=f"C19.M1|{v.message[:50]}")
+    ctx.floor("Toggle typestates", r.states, 4)
     if r.samples:
         ctx.sample(r.samples[0])
     return K
